@@ -80,4 +80,38 @@ theorem closure_complete (ts : List Task) (sel : List Tok) (hc : closedB ts (clo
     (h : Reach ts sel m) : m ∈ closureOf ts sel :=
   reach_least ts sel _ (closure_has_sel ts sel) ((closedB_iff ts _).1 hc) m h
 
+/-! ## order: the chunk abstraction of the serial dispatcher implies the order clause -/
+
+theorem getD_mem_take (s : List Tok) (i : Nat) (h : i < s.length) : s.getD i [] ∈ s.take (i + 1) := by
+  have : s.getD i [] = s[i] := by simp [List.getD, h]
+  rw [this, List.mem_take_iff_getElem]
+  exact ⟨i, by omega, rfl⟩
+
+theorem order_of_chunked (ts : List Task) (sel started : List Tok) (h : chunkedB ts sel started = true) :
+    orderPairsBad ts sel started = [] := by
+  unfold orderPairsBad
+  simp only [List.flatMap_eq_nil_iff, List.filterMap_eq_nil_iff, List.mem_range]
+  intro i hi j hj
+  have hmem := closure_has_sel ts _ _ (getD_mem_take (addNew [] sel) i hi)
+  unfold chunkedB at h
+  rw [List.all_eq_true] at h
+  have h1 := h i (List.mem_range.2 hi)
+  unfold chunkAt at h1
+  rw [List.all_eq_true] at h1
+  generalize (addNew [] sel).getD i [] = a at *
+  generalize (addNew [] sel).getD j [] = b at *
+  split
+  · next hc =>
+    exfalso
+    simp only [Bool.and_eq_true, decide_eq_true_eq, Bool.not_eq_true'] at hc
+    obtain ⟨⟨⟨⟨hij, ha⟩, hb⟩, hlt⟩, hnot⟩ := hc
+    have h2 := h1 a (List.contains_iff_mem.1 ha)
+    rw [List.all_eq_true] at h2
+    have h3 := h2 b (List.contains_iff_mem.1 hb)
+    have hin : (closureOf ts ((addNew [] sel).take (i + 1))).contains a = true := List.contains_iff_mem.2 hmem
+    rw [hin, hnot] at h3
+    simp at h3
+    omega
+  · rfl
+
 end DoitModel.Sel
